@@ -49,6 +49,8 @@ lazy_static! {
 }
 
 pub(crate) mod test;
+#[cfg(feature = "verif-hooks")]
+mod verif;
 
 /// Events that can be produced by the `Discv5` event stream.
 #[derive(Debug)]
